@@ -26,7 +26,7 @@ func init() {
 		Assumptions: []string{"AEAD implementations are inverse pairs (Decrypt(Encrypt(p,k),k)=p)", "Metastore.Load returns what Store stored (C13)"},
 		Tech:        "static analysis: value provenance over SSA (writer/reader agreement), closure-binding call-graph reachability, no-write-through may-flow on caller buffers",
 		NeedU1:      true,
-		Rules:       []func(*Ctx){ruleC01ProvenanceEncrypt, ruleC01ProvenanceDecrypt, ruleC01NoValidityGateOnRead, ruleC01OldKeysAddressable, ruleC01CallerBuffersImmutable, ruleC08RefcountProtocol, ruleC08EveryHandoutCounted, ruleC16TeardownWaits, ruleC16GetAtomic, lostUpdateRule("C16", "github.com/godaddy/asherah/go/appencryption"), ruleC17EntryPerSuccess, ruleC17WorkerContextLives, ruleC02FreshKeyOnlyIfStored, ruleC02SuccessIsStoreBool, ruleC13InsertOnly, ruleC13StoreResult},
+		Rules:       []func(*Ctx){ruleC01ProvenanceEncrypt, ruleC01ProvenanceDecrypt, ruleC01NoValidityGateOnRead, ruleC01NoExtraGateOnRead, ruleC01OldKeysAddressable, ruleC01CallerBuffersImmutable, ruleC08RefcountProtocol, ruleC08EveryHandoutCounted, ruleC16TeardownWaits, ruleC16GetAtomic, lostUpdateRule("C16", "github.com/godaddy/asherah/go/appencryption"), ruleC17EntryPerSuccess, ruleC17WorkerContextLives, ruleC18GCMLayout, ruleC07LengthGuard, ruleC02FreshKeyOnlyIfStored, ruleC02SuccessIsStoreBool, ruleC13InsertOnly, ruleC13StoreResult},
 	})
 }
 
@@ -667,4 +667,88 @@ func loadedRecord(f *ssa.Function, metaIdx int, depth int) (rec ssa.Value, ok bo
 		}
 	})
 	return rec, ok
+}
+
+// ruleC01NoExtraGateOnRead: DecryptDataRowRecord refuses a record, before any key is looked up, only for the documented
+// structural reasons: Key missing, ParentKeyMeta missing, or a parent key id that is not this partition's. Every error it
+// creates itself (errors.New / fmt.Errorf — as opposed to errors handed back by the key cache or the AEAD) must sit on an
+// edge of one of those three tests. Any further plausibility check (timestamps, sizes, ages, flags) refuses records that
+// the documented format allows — records written by another SDK, under clock skew, or long ago.
+func ruleC01NoExtraGateOnRead(c *Ctx) {
+	u := c.U1
+	c.rule("C01.no-extra-gate-on-read", "every error that DecryptDataRowRecord (or a validation helper it calls) creates itself is guarded only by: drr.Key == nil, drr.Key.ParentKeyMeta == nil, !partition.IsValidIntermediateKeyID(ParentKeyMeta.ID), or a propagated error test", 3)
+	root := u.Method(pkgApp, "envelopeEncryption", "DecryptDataRowRecord")
+	if root == nil {
+		c.unresolved("DecryptDataRowRecord", "method")
+		return
+	}
+	isOwnError := func(v ssa.Value) bool {
+		switch x := resolve(v).(type) {
+		case *ssa.Call:
+			if g := staticCallee(x); g != nil && g.Pkg != nil {
+				switch g.Pkg.Pkg.Path() {
+				case "errors", "fmt", "github.com/pkg/errors":
+					return g.Name() == "New" || g.Name() == "Errorf"
+				}
+			}
+		case *ssa.UnOp:
+			if _, isG := x.X.(*ssa.Global); isG {
+				return true
+			}
+		}
+		return false
+	}
+	allowed := func(fct Fact) bool {
+		if x, _, ok := nilTest(fct); ok {
+			if isErrorType(x.Type()) {
+				return true
+			}
+			ap := trimAddr(fct.pathOf(x))
+			return strings.HasSuffix(ap, ".Key") || strings.HasSuffix(ap, ".ParentKeyMeta")
+		}
+		if cv, ok := strip(fct.V).(*ssa.Call); ok {
+			return methodNameOf(&cv.Call) == "IsValidIntermediateKeyID"
+		}
+		return false
+	}
+	n := 0
+	var scan func(f *ssa.Function, depth int)
+	seen := map[*ssa.Function]bool{}
+	scan = func(f *ssa.Function, depth int) {
+		if f == nil || f.Blocks == nil || seen[f] || depth > 1 {
+			return
+		}
+		seen[f] = true
+		c.FuncsAnalysed[shortName(f)] = true
+		for _, r := range returnsOf(f) {
+			if len(r.Results) == 0 {
+				continue
+			}
+			ev := returnedValue(r, len(r.Results)-1)
+			if !isErrorType(ev.Type()) || !isOwnError(ev) {
+				continue
+			}
+			n++
+			bad := ""
+			for _, fct := range baseFactsAt(r.Block()) {
+				if !allowed(fct) {
+					bad = describeLeaf(fct.V)
+				}
+			}
+			c.check(bad == "", trimPkgDirs(shortName(f))+"/own-error-return", u.ipos(r), "refusal only for a missing Key / ParentKeyMeta or a foreign parent key id", "a record is refused on a condition other than the documented structural checks ("+bad+"): records that follow the documented format — written by another implementation, under clock skew between writers, or long ago — no longer decrypt")
+		}
+		// validation helpers: static callees in the package that return only an error / bool and take the record
+		allInstrs(f, func(i ssa.Instruction) {
+			if h := staticCallee(i); h != nil && h.Pkg != nil && h.Pkg.Pkg.Path() == pkgApp && h != f {
+				res := h.Signature.Results()
+				if res.Len() == 1 && isErrorType(res.At(0).Type()) {
+					scan(h, depth+1)
+				}
+			}
+		})
+	}
+	scan(root, 0)
+	if n < 3 {
+		c.bad("DecryptDataRowRecord/own-errors", "", fmt.Sprintf("expected at least 3 structural refusals (Key, ParentKeyMeta, partition), found %d", n))
+	}
 }
